@@ -113,6 +113,9 @@ def sc_fit_reject(cx, what, ftype, stage):
         call = lambda: fit.limit_parameter("a")  # noqa: E731
     elif what == "set-unknown-parameter":
         call = lambda: fit.set_parameter_values(zz=v)  # noqa: E731
+    elif what == "set-known-and-unknown-parameter":
+        # a valid name listed BEFORE the unknown one: the whole call is rejected, nothing is applied
+        call = lambda: fit.set_parameter_values(a=v, zz=w)  # noqa: E731
     elif what == "set-all-wrong-length":
         call = lambda: fit.set_all_parameter_values([v, v, v])  # noqa: E731
     elif what == "constrain-unknown-parameter":
@@ -303,7 +306,7 @@ def sc_twin_valid_accepted(cx):
 FIT_REJECTS = [
     "negative-error-scalar", "negative-error-entry", "negative-relative-error", "negative-error-model-ref", "correlation-out-of-range", "error-size-mismatch+1", "error-size-mismatch-1",
     "matrix-size-mismatch", "matrix-not-square", "cor-matrix-diagonal", "cor-matrix-errors-size", "cor-matrix-without-errors", "unknown-matrix-type", "duplicate-source-name", "unknown-reference",
-    "disable-unknown-source", "enable-unknown-source", "fix-unknown-parameter", "release-unknown-parameter", "limit-unknown-parameter", "limit-without-bounds", "set-unknown-parameter",
+    "disable-unknown-source", "enable-unknown-source", "fix-unknown-parameter", "release-unknown-parameter", "limit-unknown-parameter", "limit-without-bounds", "set-unknown-parameter", "set-known-and-unknown-parameter",
     "set-all-wrong-length", "constrain-unknown-parameter", "matrix-constraint-unknown-parameter", "matrix-constraint-non-symmetric", "matrix-constraint-wrong-shape", "matrix-constraint-values-length",
     "matrix-constraint-cor-diagonal", "matrix-constraint-cor-offdiag", "matrix-constraint-cor-without-uncertainties", "matrix-constraint-unknown-type", "data-wrong-shape", "unknown-dynamic-error-algorithm",
 ]
